@@ -13,8 +13,8 @@ the outcome:
     a non-numeric SUM/AVG/STDDEV argument, a non-BOOLEAN BOOL_AND argument, a non-TEXT STRING_AGG argument;
   * arguments of more than one type in one group (cannot arise for a typed column; for MIN/MAX/PERCENTILE the
     "value order of the argument's type" is then undefined — the derived cross-type order is finding D45);
-  * group keys that are REAL or arrays (keys that are equal in the value order but print differently,
-    `0.0`/`-0.0`: which of them is shown is not fixed);
+  * group keys that are arrays, or REAL keys that are equal to a differently printed one (`-0.0`, non-canonical NaN):
+    which of two equal keys a group's row shows depends on the engine's history (finding D60), so it is not fixed;
   * a REAL sum whose first addend `y` has `0.0 + y ≠ y` (only `-0.0`: the sign of a zero sum is not fixed);
   * PERCENTILE with p outside [0, 1]; joins (C05) and unreadable lines (C12).
 Where the sentence is silent but an answer is needed the code is mirrored, and said so at the definition:
@@ -81,9 +81,10 @@ def rowsOfKey (k : List Value) (rows : List (List Value × Env)) : List Env :=
 def groups (rows : List (List Value × Env)) : List (List Value × List Env) :=
   (distinctKeys (rows.map (·.1))).map (fun k => (k, rowsOfKey k rows))
 
-/-- key values for which "equal in the value order" is "identical" (no REAL, no array) -/
+/-- key values for which "equal in the value order" is "identical": every value but arrays and the REAL patterns
+that are equal to another pattern (`-0.0` = `0.0`; NaNs other than the canonical one; patterns beyond 64 bits) -/
 def simpleValue : Value → Bool
-  | .real _ => false
+  | .real b => decide (b < 2^64) && b != 2^63 && (!F64.isNaN b || b == F64.canonNaN)
   | .array _ _ => false
   | _ => true
 
